@@ -309,9 +309,12 @@ def gen_two_trackers(rng, cfg=None):
     if rng.random() < 0.4:
         cfg_b = dict(case["cfg"])
     nb = rng.choice([1, 2, 3])
+    # B's own scene must be in the class too (w.r.t. B's window): its animals are present in EVERY one of its
+    # frames — no absence, no late arrival (an absence ≥ B's window would legitimately give a new track)
+    kb = rng.choice([1, 2])
     case["second_tracker"] = {
         "after": rng.randint(1, max(1, F - 1)), "cfg": cfg_b,
-        "frames": [[[700.0 + k / 2, 700.0, 0.9, 9, 16], [800.0, 700.0 + k / 2, 0.9, 8, 20]][:rng.choice([1, 2])]
+        "frames": [[[700.0 + k / 2, 700.0, 0.9, 9, 16], [800.0, 700.0 + k / 2, 0.9, 8, 20]][:kb]
                    for k in range(nb)]}
     case["family"] = "two_trackers"
     return case
